@@ -515,18 +515,15 @@ func (d *Document) removeTOCEntries(startIndex int) {
 	// 保留start之前的元素
 	newElements = append(newElements, d.Body.Elements[:startIndex]...)
 
-	// 跳过TOC相关的元素
+	// 跳过TOC样式的段落；遇到第一个不是TOC样式段落的元素（无样式段落、表格等）时保留其后的所有元素
 	for i := startIndex; i < len(d.Body.Elements); i++ {
-		element := d.Body.Elements[i]
-		if paragraph, ok := element.(*Paragraph); ok {
-			if paragraph.Properties != nil && paragraph.Properties.ParagraphStyle != nil {
-				if !strings.HasPrefix(paragraph.Properties.ParagraphStyle.Val, "TOC") {
-					// 不是TOC样式，保留后续所有元素
-					newElements = append(newElements, d.Body.Elements[i:]...)
-					break
-				}
-			}
+		if paragraph, ok := d.Body.Elements[i].(*Paragraph); ok &&
+			paragraph.Properties != nil && paragraph.Properties.ParagraphStyle != nil &&
+			strings.HasPrefix(paragraph.Properties.ParagraphStyle.Val, "TOC") {
+			continue
 		}
+		newElements = append(newElements, d.Body.Elements[i:]...)
+		break
 	}
 
 	d.Body.Elements = newElements
